@@ -18,6 +18,32 @@ theorem mkIndex_wrap (arg : Expr) (pre : List Expr) (i : Expr) (h : isIndexE arg
   | nil => cases arg <;> simp_all [wrapIdx, mkIndex, isIndexE]
   | cons p ps => simp [wrapIdx, mkIndex]
 
+/-- base `b` with the pointer steps parsed so far -/
+def wrapPath (b : Expr) : List String → Expr
+  | [] => b
+  | p :: ps => .path b p ps
+
+theorem mkPath_wrap (b : Expr) (pre : List String) (y : String) (h : isPathE b = false) :
+    mkPath (wrapPath b pre) y = wrapPath b (pre ++ [y]) := by
+  cases pre with
+  | nil => cases b <;> simp_all [wrapPath, mkPath, isPathE]
+  | cons p ps => simp [wrapPath, mkPath]
+
+/-- the postfix loop consumes the printed pointer steps one by one -/
+theorem loopSteps_pp (ss : List String) (b : Expr) (pre : List String) (hb : isPathE b = false)
+    (f m : Nat) (rest : List Tok) (hm : m ≤ dotLvl) (hf : ss.length ≤ f) :
+    loop f m 0 (wrapPath b pre) (ppSteps ss ++ rest)
+      = loop (f - ss.length) m 0 (wrapPath b (pre ++ ss)) rest := by
+  induction ss generalizing pre f with
+  | nil => simp [ppSteps]
+  | cons s ss ih =>
+      simp only [List.length_cons] at hf
+      obtain ⟨g, rfl⟩ : ∃ g, f = g + 1 := ⟨f - 1, by omega⟩
+      have hpp : ppSteps (s :: ss) ++ rest = .p .dot :: .id s :: (ppSteps ss ++ rest) := by
+        simp [ppSteps]
+      rw [hpp, loop_dot (Nat.not_lt.mpr hm), mkPath_wrap b pre s hb, ih (pre ++ [s]) g (by omega)]
+      simp [List.append_assoc]
+
 theorem closed_of_loop {x : Expr} {f m : Nat} {rest : List Tok}
     (h : parseE (f + 1) m (pp x ++ rest) = loop (f - idxCount x) m 0 x rest)
     (hst : Stopper rest) (hf : need x ≤ f + 1) :
@@ -395,6 +421,41 @@ theorem parseE_pp (e : Expr) (hs : safe e = true) (f m : Nat) (rest : List Tok)
       simp only [wrapIdx, List.nil_append] at this
       rw [this]
 
+  | path b s ss =>
+      simp only [safe, Bool.and_eq_true, Bool.not_eq_true'] at hs
+      obtain ⟨hsb, hnp⟩ := hs
+      simp only [need] at hf
+      simp only [idxCount, unitLvl] at hm ⊢
+      have hkb := idxCount_lt_need b
+      obtain ⟨g, rfl⟩ : ∃ g, f = g + 1 := ⟨f - 1, by omega⟩
+      obtain ⟨g', rfl⟩ : ∃ g', g = g' + 1 := ⟨g - 1, by omega⟩
+      let tl : List Tok := ppSteps (s :: ss) ++ rest
+      have hstart : parseE (g' + 1 + 1 + 1) m (pp (.path b s ss) ++ rest)
+          = loop (g' + 1 + 1) m 0 b tl := by
+        cases hbare : bareBase b with
+        | true =>
+            -- b . s …   (ObjectRef / Set / Tuple / Parameter base, written bare)
+            obtain ⟨hu, ho', hi⟩ := bare_facts b hbare
+            have hpp : pp (.path b s ss) ++ rest = pp b ++ tl := by simp [pp, hbare, tl]
+            rw [hpp, parseE_pp b hsb (g' + 1 + 1) m tl (by omega)
+              (by rw [hu]; exact Nat.le_trans hm dot_le_top)
+              (by intro p hp; rw [ho'] at hp; cases hp) (noCall_dot _), hi, Nat.sub_zero]
+        | false =>
+            -- ( b ) . s …
+            have hst : Stopper (.p .rparen :: tl) := stopper_cons _ _ rfl
+            have hb := closed_of_loop
+              (parseE_pp b hsb g' 0 (.p .rparen :: tl) (by omega) (Nat.zero_le _)
+                (fun p _ => loopStops_of_stopper hst p) (noCall_of_stopper hst)) hst (by omega)
+            have hhead : ∀ r', pp b ++ .p .rparen :: tl ≠ .p .rparen :: r' := by
+              intro r' h; exact (pp_head b hsb _ _ _ h).1 rfl
+            have hpp : pp (.path b s ss) ++ rest = .p .lparen :: (pp b ++ .p .rparen :: tl) := by
+              simp [pp, hbare, tl]
+            rw [hpp, parseE_of_operand (operand_paren hhead hb)]
+      rw [hstart]
+      have := loopSteps_pp (s :: ss) b [] hnp (g' + 1 + 1) m rest hm (by simp only [List.length_cons]; omega)
+      simp only [wrapPath, List.nil_append, List.length_cons] at this
+      rw [this]
+
 theorem parseArgs_pp (es : List Expr) (hs : safeList es = true) (f : Nat) (close : P)
     (hc : close = .rparen ∨ close = .rbracket ∨ close = .rbrace) (rest : List Tok)
     (hf : needList es ≤ f + 1) :
@@ -501,6 +562,10 @@ theorem need_le (e : Expr) : need e ≤ 4 * (pp e).length := by
   | array es => have := needList_le es; simp [need, pp]; omega
   | set es => have := needList_le es; simp [need, pp]; omega
   | index a idx => have := need_le a; have := needIdx_le idx; simp [need, pp]; omega
+  | path b s ss =>
+      have := need_le b
+      have := length_ppSteps ss
+      cases h : bareBase b <;> simp [need, pp, h, ppSteps] <;> omega
 
 theorem needList_le (es : List Expr) : needList es ≤ 4 * (ppList es).length + 4 := by
   cases es with
